@@ -144,7 +144,7 @@ PROPS = {
         assumptions=[],
     ),
     "C15": dict(
-        modules=['Gopki.Props.C15', 'Gopki.Abs.Conv4', 'Gopki.Model.Fs'], theorems=['Conv.grun_sinv', 'Conv.opWrite_sinv', 'Conv.converge_after_any_history', 'Conv.second_run_noop', 'Fs.write_read', 'Fs.write_frame', 'Fs.delete_read', 'Fs.delete_frame'], ops=['hist', 'fsops'],
+        modules=['Gopki.Props.C15', 'Gopki.Abs.Conv4', 'Gopki.Model.Fs'], theorems=['C15.C15_last_line_feed_may_be_missing', 'C15.C15_block_read_whatever_follows', 'Pem.decode_encode_gen', 'Conv.grun_sinv', 'Conv.opWrite_sinv', 'Conv.converge_after_any_history', 'Conv.second_run_noop', 'Fs.write_read', 'Fs.write_frame', 'Fs.delete_read', 'Fs.delete_frame'], ops=['hist', 'fsops'],
         rule="fsops: the native file-system layer (NewNativeFs on a scratch directory) against the abstract directory of Gopki.Model.Fs: every ordered pair of 11 content lengths written to the same file, and 300 (thorough 6000) random sequences of write/delete/stat incl. absolute names; after every step the whole directory is compared; non-trivial = an existing file was overwritten; "
              "hist: forests of 1-4 entities, a first default run, then 1-5 (thorough 1-9) steps drawn from {edit config, delete/truncate/strip-block/replace artifact, touch config, run with one of 12 flag sets, run with an injected write fault (error / torn prefix / death after write)}, "
              "then a default run (convergence evaluated) and another default run (must be a no-op); every run is replayed on the model from the directory observed before it; non-trivial = at least three runs",
